@@ -221,12 +221,33 @@ def routes_of_config(config, contigs):
     return MAFSORTER_ROUTES if contigs else ["kw-contigs"]
 
 
-def eval_maf(order, contigs, config, cap, specs, canon, route=None, tmp=None, refused_first=None):
+EMPTY_LISTS = {"Center": "", "dbSNP_RS": "", "dbSNP_Val_Status": "", "Validation_Method": ""}
+
+
+def eval_maf_after_edits(order, contigs, cap, specs, canon):
+    """Typed records whose list columns are empty are built (and their values copied); THEN, elsewhere in the process,
+    lines are parsed and the lists those records hand out are edited in place; then the records are sorted under the scheme:
+    what comes back carries the values that were added."""
+    import random
+    from .. import colcases
+    recs = [SC.typed_record(None, t, nn, c, s, e, extra=EMPTY_LISTS) for (t, nn, c, s, e) in specs]
+    pre = sorted(repr([impl.enc_val(v) for v in r.column_values()]) for r in recs)
+    undo = colcases.edit_parsed_lists("gdc-1.0.0", random.Random(3))
+    try:
+        where, texts, fails, keyseq = eval_maf(order, contigs, "scheme", cap, specs, canon, _recs=recs, _pre_vals=pre)
+    finally:
+        undo()
+    for f in fails:
+        f["history"] = "parsed-lists-edited"
+    return where, texts, fails, keyseq
+
+
+def eval_maf(order, contigs, config, cap, specs, canon, route=None, tmp=None, refused_first=None, _recs=None, _pre_vals=None):
     """One MAF sorting (records built from `specs`, added in that order) and the oracle's verdict (shared by run and
     replay_case).  `route` says how (order, contigs) reaches the sorter (None: contigs= keyword / Cls(contigs=...)).
     Returns (where, output texts or None, failures, key sequence or None)."""
     from maflib.sorter import MafSorter, MafSorterCodec, Sorter
-    recs = [make_maf_record(config, sp) for sp in specs]
+    recs = _recs if _recs is not None else [make_maf_record(config, sp) for sp in specs]
     where = {"order": order, "contigs": contigs, "codec": config, "capacity": cap, "specs": [list(sp) for sp in specs],
              "records": [str(r).split("\t")[:8] if config != "scheme" else [SC.loc_json(r)] for r in recs][:8]}
     if route is not None:
@@ -272,7 +293,7 @@ def eval_maf(order, contigs, config, cap, specs, canon, route=None, tmp=None, re
     if sorted(texts) != texts_in:
         fails.append(dict(where, what="output records are not the added records (text)", kind="not-permutation"))
         return where, texts, fails, None
-    vals_in = sorted(repr([impl.enc_val(v) for v in r.column_values()]) for r in recs)
+    vals_in = _pre_vals if _pre_vals is not None else sorted(repr([impl.enc_val(v) for v in r.column_values()]) for r in recs)
     if sorted(repr([impl.enc_val(v) for v in r.column_values()]) for r in first) != vals_in:
         fails.append(dict(where, what="output records do not carry equal values", kind="values"))
     locs = [SC.loc_json(r) for r in first]
@@ -389,6 +410,20 @@ def maf_sequence_cases(ctx, out):
         out.failures += eval_maf_sequence(order, runs)
         out.distribution["maf: scheme-less sorters one after the other"] += 1
         out.nontrivial.add(repr(("sequence", order, runs)))
+
+
+def maf_after_edits_cases(ctx, out):
+    rng = ctx.rng("maf-after-edits")
+    for _ in range(ctx.scale(4, 30)):
+        order = rng.choice(["Coordinate", "BarcodesAndCoordinate"])
+        n = rng.choice([1, 3, 4])
+        specs = [(rng.choice(["T1", "T2"]), rng.choice(["N1", None]), rng.choice(["1", "2", "X"]), rng.choice([5, 9, 100]), 0) for _k in range(n)]
+        specs = [(t, nn, c, s, s + d) for (t, nn, c, s, d) in specs]
+        out.evaluations += 1
+        where, texts, fails, keyseq = eval_maf_after_edits(order, None, rng.choice([1, 2, n + 1]), specs, None)
+        out.failures += fails
+        out.distribution["scheme codec after in-place edits of other records' lists"] += 1
+        out.nontrivial.add(repr(("after-edits", specs, order)))
 
 
 def maf_cases(ctx, out):
@@ -717,6 +752,7 @@ def run(ctx):
         generic_history_cases(ctx, out, tmp)
         codec_cases(ctx, out, tmp)
         maf_cases(ctx, out)
+        maf_after_edits_cases(ctx, out)
         maf_reused_cases(ctx, out)
         maf_sequence_cases(ctx, out)
         maf_route_cases(ctx, out, tmp)
@@ -764,6 +800,14 @@ def replay_case(ctx, failure):
             fails = eval_generic_history([[tuple(x) for x in b] for b in failure["batches"]], failure["key"], failure["capacity"], failure["always_spill"], tmp, early=failure.get("early"))
         print("replay C07: Sorter(capacity %d, always_spill=%s, key %s); batches %s, the sorter iterated to the end after each batch" % (
             failure["capacity"], failure["always_spill"], failure["key"], failure["batches"]))
+        for x in fails:
+            print("  oracle: %s" % x["what"])
+        return fails
+    if failure.get("history") == "parsed-lists-edited" and "specs" in failure:
+        specs = [tuple(sp) for sp in failure["specs"]]
+        where, texts, fails, keyseq = eval_maf_after_edits(failure["order"], failure.get("contigs"), failure["capacity"], specs, None)
+        print("replay C07: %d gdc-1.0.0 records with empty list columns are built; other lines are parsed and the lists those records hand out are edited in place; MafSorter(%s, scheme, capacity %d) sorts the records" % (
+            len(specs), failure["order"], failure["capacity"]))
         for x in fails:
             print("  oracle: %s" % x["what"])
         return fails
